@@ -167,15 +167,25 @@ func newFixture() (*Fixture, error) {
 	for len(readyCh) > 0 {
 		<-readyCh
 	}
+	firstDB := ts.DB // Start() opens the same file again under its absolute path and drops this handle
 	go ts.Start()
 	select {
 	case <-readyCh:
 	case <-time.After(120 * time.Second):
 		return nil, fmt.Errorf("Start() did not reach its blocking point within 120 s")
 	}
+
 	go http.Serve(l, ts.Server.Engine)
 	f := &Fixture{TS: ts, L: l, Base: fmt.Sprintf("ws://127.0.0.1:%d", l.Port()), Fresh: true}
 	f.baseline = runtime.NumGoroutine()
+	if ts.DB != firstDB {
+		// closing a sql.DB ends its connectionOpener goroutine (asynchronously): the
+		// baseline is what remains after that
+		tsx.CloseDB(firstDB)
+		if f.QuiesceTo(-1, time.Second) {
+			f.baseline--
+		}
+	}
 	return f, nil
 }
 
@@ -263,20 +273,27 @@ func (f *Fixture) Release(dirty bool) {
 		fmt.Fprintf(os.Stderr, "NOT QUIESCENT baseline=%d now=%d\n%s\n", f.baseline, runtime.NumGoroutine(), buf[:n])
 	}
 	if dirty || !q {
-		f.L.Close()
-		if cur == f {
-			cur = nil
-		}
+		f.drop()
 		Obs("fixture-discarded")
+	}
+}
+
+// drop: the teamserver is not used again.  Its listener and its sqlite handle are
+// closed (db.DB has no Close; tsx.CloseTS reaches the handle); the goroutines parked in
+// Start() never touch the database, and a handler that is stuck for good never runs again.
+func (f *Fixture) drop() {
+	f.L.KillAll()
+	f.L.Close()
+	tsx.CloseTS(f.TS)
+	if cur == f {
+		cur = nil
 	}
 }
 
 // Discard drops the current teamserver unconditionally.
 func Discard() {
 	if cur != nil {
-		cur.L.KillAll()
-		cur.L.Close()
-		cur = nil
+		cur.drop()
 	}
 }
 
